@@ -233,6 +233,7 @@ def run_soc(soc):
     regs = [(k, r) for k, r in enumerate(res, 1) if not isinstance(r, Memory)]
     mems = [(k, r) for k, r in enumerate(res, 1) if isinstance(r, Memory)]
     r = rng("c01-run", soc["seed"])
+    b2b = soc["seed"] % 2 == 1          # every other hierarchy is swept back to back
     sim = Simulator(b.m)
     sim.add_clock(1e-6)
     steps = []
@@ -277,15 +278,20 @@ def run_soc(soc):
                     acked, latency, dat_r = 1, cyc, ctx.get(bus.dat_r)
                     break
                 await ctx.tick()
-            ctx.set(bus.cyc, 0)
-            ctx.set(bus.stb, 0)
             late = 0
-            for _ in range(3):
+            if b2b:
+                # a registered initiator: it holds the request through the cycle in which it samples
+                # the acknowledge and presents the next transfer right away (no idle cycle in between)
                 await ctx.tick()
-                for k, reg in regs:
-                    e = reg.element
-                    if (e.access.readable() and ctx.get(e.r_stb)) or (e.access.writable() and ctx.get(e.w_stb)):
-                        late += 1
+            else:
+                ctx.set(bus.cyc, 0)
+                ctx.set(bus.stb, 0)
+                for _ in range(3):
+                    await ctx.tick()
+                    for k, reg in regs:
+                        e = reg.element
+                        if (e.access.readable() and ctx.get(e.r_stb)) or (e.access.writable() and ctx.get(e.w_stb)):
+                            late += 1
             after = snapshot_mem()
             mem = []
             for k, m_ in mems:
